@@ -23,6 +23,7 @@ import (
 	"com.tuntun.rangers/node/src/common"
 	"com.tuntun.rangers/node/src/common/secp256k1"
 	crypto "com.tuntun.rangers/node/src/eth_crypto"
+	ethsecp "com.tuntun.rangers/node/src/eth_crypto/secp256k1"
 	"com.tuntun.rangers/node/src/eth_tx"
 	"com.tuntun.rangers/node/src/middleware/types"
 	"com.tuntun.rangers/node/src/service"
@@ -123,35 +124,54 @@ func (o *oracle) kec(pre []byte) []byte {
 	o.add("kec=" + hx.Hex(pre) + "," + hx.Hex(d))
 	return d
 }
-// rec records the library's answer for a signature whose recovery id is
-// already in 0..3 (the Go wrapper's 27..30 aliasing is part of the model).
-func (o *oracle) rec(msg, sig0 []byte) []byte {
-	sig := append([]byte{}, sig0...)
-	if len(sig) != 65 || len(msg) != 32 {
+var secpHalfN = new(big.Int).Rsh(secpNConst(), 1)
+
+func secpNConst() *big.Int {
+	n, _ := new(big.Int).SetString("fffffffffffffffffffffffffffffffebaaedce6af48a03bbfd25e8cd0364141", 16)
+	return n
+}
+
+func inRange(x *big.Int) bool { return x.Sign() > 0 && x.Cmp(secpNConst()) < 0 }
+
+// recCore records the curve-level recovery (1 <= r,s < N, recid 0..3); overflow, zero
+// and the recovery-id spellings are decision logic of the model, not oracle facts.
+func (o *oracle) recCore(msg []byte, r, sv *big.Int, recid byte, ethLib bool) []byte {
+	if len(msg) != 32 || !inRange(r) || !inRange(sv) || recid > 3 {
 		return nil
 	}
-	if sig[64] > 26 {
-		sig[64] -= 27
+	sig := append(append(pad32(r.Bytes()), pad32(sv.Bytes())...), recid)
+	var pk []byte
+	var err error
+	if ethLib {
+		pk, err = ethsecp.RecoverPubkey(msg, sig)
+	} else {
+		pk, err = secp256k1.RecoverPubkey(msg, sig)
 	}
-	if sig[64] >= 4 {
-		return nil
-	}
-	key := append([]byte{}, sig...)
-	pk, err := secp256k1.RecoverPubkey(msg, sig)
-	sig = key
+	key := "rec=" + hx.Hex(msg) + "," + hx.Hex(pad32(r.Bytes())) + "," + hx.Hex(pad32(sv.Bytes())) + "," + strconv.Itoa(int(recid)) + ","
 	if err != nil {
-		o.add("rec=" + hx.Hex(msg) + "," + hx.Hex(sig) + ",err")
+		o.add(key + "err")
 		return nil
 	}
-	o.add("rec=" + hx.Hex(msg) + "," + hx.Hex(sig) + "," + hx.Hex(pk))
+	o.add(key + hx.Hex(pk))
 	return pk
 }
-func (o *oracle) ver(pk, msg, sig64 []byte) {
-	r := "0"
-	if secp256k1.VerifySignature(pk, msg, sig64) {
-		r = "1"
+
+// verCore records the curve-level ECDSA equation for (r, s): the library's verify on the
+// low-s representative (the equation is symmetric under s -> N-s; the low-s *rule* is
+// decision logic of the model).
+func (o *oracle) verCore(pk, msg []byte, r, sv *big.Int) {
+	if !inRange(r) || !inRange(sv) {
+		return
 	}
-	o.add("ver=" + hx.Hex(pk) + "," + hx.Hex(msg) + "," + hx.Hex(sig64) + "," + r)
+	low := sv
+	if sv.Cmp(secpHalfN) > 0 {
+		low = new(big.Int).Sub(secpNConst(), sv)
+	}
+	res := "0"
+	if secp256k1.VerifySignature(pk, msg, append(pad32(r.Bytes()), pad32(low.Bytes())...)) {
+		res = "1"
+	}
+	o.add("ver=" + hx.Hex(pk) + "," + hx.Hex(msg) + "," + hx.Hex(pad32(r.Bytes())) + "," + hx.Hex(pad32(sv.Bytes())) + "," + res)
 }
 func (o *oracle) String() string {
 	if len(o.toks) == 0 {
@@ -169,9 +189,13 @@ func nativeOracle(o *oracle, tx *types.Transaction) {
 	}
 	sb := tx.Sign.Bytes()
 	h := tx.Hash.Bytes()
-	pk := o.rec(h, sb)
-	if pk != nil {
-		o.ver(pk, h, sb[:64])
+	r, sv := new(big.Int).SetBytes(sb[:32]), new(big.Int).SetBytes(sb[32:64])
+	v := sb[64]
+	if v > 26 {
+		v -= 27
+	}
+	if pk := o.recCore(h, r, sv, v, false); pk != nil {
+		o.verCore(pk, h, r, sv)
 		o.kec(pk[1:])
 	}
 }
@@ -208,13 +232,9 @@ func ethOracle(o *oracle, enc []byte, chain *big.Int) {
 	if !bytes.Equal(h155, eth_tx.NewEIP155Signer(chain).Hash(et).Bytes()) || !bytes.Equal(hH, eth_tx.HomesteadSigner{}.Hash(et).Bytes()) {
 		selfcheckFail++
 	}
-	if r.BitLen() > 256 || s.BitLen() > 256 {
-		return
-	}
 	for _, h := range [][]byte{h155, hH} {
 		for recid := byte(0); recid < 2; recid++ {
-			sig := append(append(pad32(r.Bytes()), pad32(s.Bytes())...), recid)
-			if pk := o.rec(h, sig); pk != nil {
+			if pk := o.recCore(h, r, s, recid, true); pk != nil {
 				o.kec(pk[1:])
 			}
 		}
